@@ -33,4 +33,16 @@ PROPS = {
                      "strconv.ParseUint base 10 modelled: non-empty, all ASCII digits, value < 2^64",
                      "version_class rests on T-facts: the pipeline reads the version only in the two InRange dispatches and GreaterOrEqual(7.3)"],
     ),
+    "C13": dict(
+        components=["facts", "printer", "dumper", "traverser", "null"],
+        lean=["PhpVerif.Props.C13"],
+        diffs=[], oracle="C13", level="proof",
+        assumptions=["purity is a syntactic fact (T-facts): no assignment / inc-dec / append / copy / sort whose destination is reachable from a node or token variable in the five observer files; aliasing through receiver state (a visitor that stores a node and writes through the stored reference later) is outside the scan and is covered by the history oracle only"],
+    ),
+    "C11": dict(
+        components=["facts"],
+        lean=["PhpVerif.Props.C11"],
+        diffs=[], oracle="C11", level="proof", race=True,
+        assumptions=["the Go memory model and scheduler are not modelled: the theorem is non-interference of pipelines that share only read-only state; that the library shares only read-only state is the regenerated fact globalWritesLib = []; data races are searched for with the race detector"],
+    ),
 }
